@@ -1,35 +1,75 @@
-# Self tests of the machinery: determinism proof (same seed twice -> identical traces and outputs).
+# Self tests of the machinery.
+#   smoke        small determinism check used by setup (every engine family, each scenario executed twice)
+#   determinism  the proof demanded before any batch is believed: N seeds per property, each scenario executed twice in
+#                different worker pools (16 and 4 workers) and under a different PYTHONHASHSEED in a fresh interpreter;
+#                all trace hashes and violation signatures must be pairwise identical.
+import importlib
+import json
+import multiprocessing as mp
 import os
+import subprocess
 import sys
 
 from . import core
 from .core import mix
 
+ALL = ["c15", "c16", "c17", "c18", "c19", "c20", "c21", "c22", "c24", "c25", "c29", "c34"]
 
-def smoke(n=24):
-    """Small determinism smoke used by setup: every claimed engine, each scenario executed twice."""
-    import importlib
-    bad = 0
+
+def _one(job):
+    mod, seed, i, scratch = job
+    from .engine import execute_fresh
+    prop = importlib.import_module("sim.props." + mod).PROP
+    scn = prop.generate(mix(seed, prop.ID, i), "quick", i)
+    out = execute_fresh(prop, scn, scratch, "%s_%d_%d" % (mod, i, os.getpid()))
+    if out.error:
+        return (mod, i, "ERROR " + out.error, [])
+    return (mod, i, out.run_hashes, sorted([v["cls"], v["sig"]] for v in out.violations))
+
+
+def fingerprints(mods, n, seed, workers):
     scratch = os.path.join(core.scratch_root(), "selftest")
-    for mod in ("c18", "c15", "c21"):
-        try:
-            prop = importlib.import_module("sim.props." + mod).PROP
-        except ImportError:
-            continue
-        from .engine import execute_fresh
-        for i in range(n // 3):
-            scn = prop.generate(mix(7, prop.ID, i), "quick", i)
-            a = execute_fresh(prop, scn, scratch, "a%d" % i)
-            b = execute_fresh(prop, scn, scratch, "b%d" % i)
-            if a.run_hashes != b.run_hashes or [v["sig"] for v in a.violations] != [v["sig"] for v in b.violations]:
-                print("NONDETERMINISM %s scenario %d" % (prop.ID, i))
-                bad += 1
+    os.makedirs(scratch, exist_ok=True)
+    jobs = [(m, seed, i, scratch) for m in mods for i in range(n)]
+    with mp.get_context("fork").Pool(workers) as pool:
+        res = pool.map(_one, jobs, chunksize=1)
     core.rmtree(scratch)
     try:
         os.rmdir(core.scratch_root())
     except OSError:
         pass
-    print("selftest smoke: %s" % ("FAILED" if bad else "ok"))
+    return {"%s/%d" % (m, i): [h, v] for m, i, h, v in res}
+
+
+def smoke():
+    core.build(["plain", "asan", "tsan"])
+    a = fingerprints(["c18", "c15", "c21", "c16", "c34"], 4, 7, 16)
+    b = fingerprints(["c18", "c15", "c21", "c16", "c34"], 4, 7, 5)
+    bad = [k for k in a if a[k] != b[k]]
+    for k in bad:
+        print("NONDETERMINISM %s" % k)
+    errs = [k for k in a if isinstance(a[k][0], str)]
+    for k in errs:
+        print("HARNESS-ERROR in %s: %s" % (k, a[k][0]))
+    print("selftest smoke: %s (%d scenarios x2)" % ("FAILED" if bad or errs else "ok", len(a)))
+    return 2 if bad or errs else 0
+
+
+def determinism(mods, n, seed):
+    core.build(["plain", "asan", "tsan"])
+    a = fingerprints(mods, n, seed, 16)
+    b = fingerprints(mods, n, seed, 4)
+    # third pass: fresh interpreter with another hash seed
+    env = dict(os.environ, PYTHONHASHSEED="12345")
+    p = subprocess.run([sys.executable, "-m", "sim.selftest", "fingerprints", ",".join(mods), str(n), str(seed)], cwd=core.VERIF, env=env,
+                       stdout=subprocess.PIPE, text=True)
+    c = json.loads(p.stdout.strip().split("\n")[-1])
+    bad = [k for k in a if not (a[k] == b[k] == c.get(k))]
+    for k in bad[:20]:
+        print("NONDETERMINISM %s" % k)
+    runs = sum(len(v[0]) for v in a.values() if not isinstance(v[0], str))
+    print("determinism: %d scenarios (%d simulated runs) x3 passes (16 workers, 4 workers, fresh interpreter with PYTHONHASHSEED=12345): %s" % (
+        len(a), runs, "FAILED (%d differ)" % len(bad) if bad else "all trace hashes and violation signatures identical"))
     return 2 if bad else 0
 
 
@@ -37,3 +77,9 @@ if __name__ == "__main__":
     cmd = sys.argv[1] if len(sys.argv) > 1 else "smoke"
     if cmd == "smoke":
         sys.exit(smoke())
+    if cmd == "fingerprints":
+        print(json.dumps(fingerprints(sys.argv[2].split(","), int(sys.argv[3]), int(sys.argv[4]), 8)))
+        sys.exit(0)
+    if cmd == "determinism":
+        mods = sys.argv[2].split(",") if len(sys.argv) > 2 and sys.argv[2] != "all" else ALL
+        sys.exit(determinism(mods, int(sys.argv[3]) if len(sys.argv) > 3 else 40, int(sys.argv[4]) if len(sys.argv) > 4 else 11))
